@@ -161,129 +161,10 @@ def run_fista_converged(p, x0, eps=0.0, lr=None):
     return x
 
 
-# ----------------------------------------------------------------------------- independent transcription of the active-set algorithm
-def as_transcript(b, G, x0, n_iter_max=100, tol=10e-8, field=float):
-    """Line-by-line transcription of active_set_nnls (as in the pinned tree) over `field` (float or Fraction).
-    Returns (x or None if an exception escapes, residue) where residue = True iff in some interpolation step
-    x + alpha (s - x) the coordinate attaining alpha did NOT land on a value <= 0 (in exact arithmetic it is 0)."""
-    r = len(b)
-    conv = (lambda v: Fr(float(v))) if field is Fr else float
-    b = [conv(v) for v in b]; G = [[conv(v) for v in row] for row in G]
-    zero = conv(0.0)
-
-    def solve(mask):
-        idx = [i for i in range(r) if mask[i]]
-        if not idx:
-            return [zero] * r
-        if field is Fr:
-            A = [[G[i][j] for j in idx] + [b[i]] for i in idx]
-            k = len(idx)
-            for c in range(k):
-                piv = next((q for q in range(c, k) if A[q][c] != 0), None)
-                if piv is None:
-                    raise ZeroDivisionError
-                A[c], A[piv] = A[piv], A[c]
-                for q in range(k):
-                    if q != c and A[q][c] != 0:
-                        f = A[q][c] / A[c][c]
-                        A[q] = [u - f * v for u, v in zip(A[q], A[c])]
-            ps = [A[c][k] / A[c][c] for c in range(k)]
-        else:
-            ps = np.linalg.solve(np.array([[G[i][j] for j in idx] for i in idx]), np.array([b[i] for i in idx])).tolist()
-        s = [zero] * r
-        for t, i in enumerate(idx):
-            s[i] = ps[t]
-        return s
-
-    def grad(x):
-        if field is Fr:
-            return [b[i] - sum(G[i][j] * x[j] for j in range(r)) for i in range(r)]
-        return (np.array(b) - np.array(G) @ np.array(x)).tolist()
-
-    def argmax(g):
-        bi = 0
-        for i in range(1, r):
-            if g[i] > g[bi]:
-                bi = i
-        return bi
-    x = [zero] * r if x0 is None else [conv(v) for v in x0]
-    g = grad(x)
-    passive = [v > 0 for v in x]; active = [v <= 0 for v in x]
-    residue = False
-    tolf = conv(tol)
-    try:
-        for it in range(n_iter_max):
-            if it > 0 or all(v == 0 for v in x):
-                k = argmax(g); passive[k] = True; active[k] = False
-            try:
-                s = solve(passive)
-            except Exception:
-                x = [zero] * r; passive = [False] * r; active = [True] * r
-                k = argmax(g); passive[k] = True; active[k] = False
-                s = solve(passive)
-            sel = [s[i] for i in range(r) if passive[i]]
-            if min(sel) <= 0:
-                for _ in range(r):
-                    cand = [(x[i] / (x[i] - s[i]), i) for i in range(r) if passive[i] and s[i] <= 0]
-                    alpha = min(c[0] for c in cand)
-                    hit = [i for a, i in cand if a == alpha]
-                    x = [x[i] + alpha * (s[i] - x[i]) for i in range(r)]
-                    if any(x[i] > 0 for i in hit):
-                        residue = True
-                    passive = [v > 0 for v in x]; active = [v <= 0 for v in x]
-                    s = solve(passive)
-                    if not any(passive) or min(s[i] for i in range(r) if passive[i]) > 0:
-                        break
-            x = [max(v, zero) for v in s]
-            g = grad(x)
-            if not any(active) or max(g[i] for i in range(r) if active[i]) <= tolf:
-                break
-    except Exception:
-        return None, residue
-    return [float(v) for v in x], residue
-
-
-# ----------------------------------------------------------------------------- classifiers of the known findings
-def clf_hals_cold_zero_start(f):
-    """cold start (V=None) whose clipped unconstrained solution clip(solve(UtU, UtM), 0) is identically zero:
-    the scaling step divides 0 by 0 and every entry of the result is NaN"""
-    inp = f["inputs"]
-    if inp.get("V0") is not None:
-        return False
-    G = C.from_jsonable_array(inp["UtU"]) if isinstance(inp["UtU"], dict) else np.asarray(inp["UtU"])
-    B = C.from_jsonable_array(inp["UtM"]) if isinstance(inp["UtM"], dict) else np.asarray(inp["UtM"])
-    try:
-        sol = np.linalg.solve(G, B)
-    except Exception:
-        return False
-    obs = f.get("observed")
-    obs_nan = obs is None or not finite(C.from_jsonable_array(obs) if isinstance(obs, dict) else obs)
-    return bool(np.all(np.clip(sol, 0, None) == 0)) and obs_nan
-
-
-def clf_as_step_residue(f):
-    """the interpolation step x + alpha (s - x) leaves the blocking coordinate at a tiny positive value instead
-    of 0 (floating-point rounding), it stays in the passive set and the bounded inner loop runs out; the exact
-    (rational) run of the same algorithm returns the optimum and the float transcription of the ORIGINAL
-    algorithm reproduces the observed output"""
-    inp = f["inputs"]
-    arr = lambda v: None if v is None else (C.from_jsonable_array(v) if isinstance(v, dict) else np.asarray(v, dtype=float))
-    G, b, x0 = arr(inp["UtU"]), arr(inp["Utm"]), arr(inp.get("x0"))
-    obs = arr(f.get("observed"))
-    xf, residue = as_transcript(b, G, x0, inp.get("n_iter_max", 100), inp.get("tol", 10e-8), float)
-    if not residue or xf is None or obs is None:
-        return False
-    if not np.allclose(np.array(xf), obs, rtol=1e-9, atol=1e-12):
-        return False
-    xe, res_e = as_transcript(b, G, x0, inp.get("n_iter_max", 100), inp.get("tol", 10e-8), Fr)
-    if xe is None or res_e:
-        return False
-    mv, mg, mc = kkt_residuals_exact(G, b.reshape(-1, 1), np.array(xe).reshape(-1, 1), 0, 0)
-    return mv >= 0 and mg >= -1e-6 and mc <= 1e-6
-
-
-CLASSIFIERS = {"hals_cold_start_clipped_solution_all_zero": clf_hals_cold_zero_start,
-               "active_set_interpolation_step_rounding_residue": clf_as_step_residue}
+# ----------------------------------------------------------------------------- known findings
+# none at present: the two defects found by this check (hals_nnls cold start 0/0, active_set_nnls rounding residue on the
+# blocking coordinate) were repaired in /repo (5f3eaf7, dadc3ff); their witnesses live in corpus/C13/*.json and run first.
+CLASSIFIERS = {}
 
 
 # ----------------------------------------------------------------------------- predicates
@@ -341,28 +222,35 @@ def dyadic_start(rng, r, n, kind):
     raise KeyError(kind)
 
 
-def _load_known_with_own_snippet():
-    """known_findings.json is merged by the coordinator from known_findings.d/*.json; until (and after) that merge
-    this check reads its own snippet too, so that it is self-contained (ids are de-duplicated)."""
-    import json, os
-    orig = C.load_known
-    if getattr(orig, "_c13", False):
-        return
+def load_corpus():
+    """corpus/C13/*.json: minimised regression inputs (former defects), run first"""
+    import glob, json, os
+    out = []
+    for fn in sorted(glob.glob(os.path.join(C.VERIF, "corpus", "C13", "*.json"))):
+        try:
+            d = json.load(open(fn))
+        except Exception:
+            continue
+        d["file"] = os.path.basename(fn)
+        out.append(d)
+    return out
 
-    def load(prop):
-        ks = orig(prop)
-        fn = os.path.join(C.VERIF, "known_findings.d", "C13.json")
-        if prop == "C13" and os.path.exists(fn):
-            ids = {k.get("id") for k in ks}
-            ks = ks + [k for k in json.load(open(fn)).get("findings", []) if k.get("id") not in ids and k.get("property") == prop]
-        return ks
-    load._c13 = True
-    C.load_known = load
+
+class Skip(Exception):
+    pass
+
+
+def impl_call(chk, fn, *a, timeout=120, **k):
+    """call_impl + the rule that a timeout (shared, loaded machine) is never a verdict: counted as skipped"""
+    st, v = C.call_impl(fn, *a, timeout=timeout, **k)
+    if st == "crash" and v == "timeout":
+        chk.hist("skipped", "timeout")
+        raise Skip()
+    return st, v
 
 
 def run(chk):
     rng = random.Random(chk.seed)
-    _load_known_with_own_snippet()
     chk.build_proofs()
     # common.print_assumptions parses the header line "Axioms:" of Print Assumptions as an axiom called 'Axioms'
     # (reported to the coordinator); drop exactly that pseudo-entry, keep every real one
